@@ -161,7 +161,11 @@ class Interp:
         module = func.module
         env = self.bind_args(ctx, fn_node, module, args, kwargs, closure_env)
         env['__module__'] = module
-        env['__self__'] = args[0] if args else None
+        if args:
+            env['__self__'] = args[0]
+        else:       # the receiver (self / cls) may have been passed by keyword
+            pos = list(getattr(fn_node.args, 'posonlyargs', [])) + list(fn_node.args.args)
+            env['__self__'] = env.get(pos[0].arg) if pos else None
         env['__class__'] = getattr(func, 'cls', None) if not isinstance(func, Closure) else (closure_env or {}).get('__class__')
         self.stats['calls'] += 1
         if isinstance(fn_node, ast.Lambda):
